@@ -42,7 +42,10 @@ fn fold_case(kind: &str, n: usize, scoped: bool) -> Case {
         Ok(m) => format!("(ok {})", sx::exp(m.constraints()[0].lhs())),
         Err(e) => err_class(&e),
     };
-    mk(req, imp, &[&format!("fold:{}", kind), &format!("fold-size:{}", n.min(4)), if scoped { "fold-form:scoped" } else { "fold-form:block" }], src)
+    let oracle = if imp.starts_with("(ok") { format!("fold-value {} ({}) {}", kind, leaves, imp) } else { String::new() };
+    let mut c = mk(req, imp, &[&format!("fold:{}", kind), &format!("fold-size:{}", n.min(4)), if scoped { "fold-form:scoped" } else { "fold-form:block" }], src);
+    c.oracle = oracle;
+    c
 }
 
 fn names_of(m: &rooc::model_transformer::Model) -> Vec<String> { m.constraints().iter().map(|c| c.name().to_string()).collect() }
